@@ -12,10 +12,14 @@ vars == <<l, sizes, memoD, memoJ, memoS, viol, drift, cnt>>
 PropIds == {"C01","C05","C09","C15","C16","C17","C19","C06","ood","L2"}
 E == Rec[l]
 Res(f, d, n) == [f |-> f, d |-> d, n |-> n]
-Bump(c, names) ==
-  LET RECURSIVE B(_, _)
-      B(cc, ns) == IF ns = <<>> THEN cc ELSE B([cc EXCEPT ![Head(ns)] = @ + 1], Tail(ns))
-  IN B(c, names)
+Bump(c, names) ==        \* each property is counted at most once per event: cnt[p] = events that exercised p
+  LET RECURSIVE B(_, _, _)
+      B(cc, ns, seen) ==
+        IF ns = <<>> THEN cc
+        ELSE LET h == Head(ns) IN
+             IF h \in seen THEN B(cc, Tail(ns), seen)
+             ELSE B([x \in DOMAIN cc \cup {h} |-> IF x = h THEN (IF h \in DOMAIN cc THEN cc[h] ELSE 0) + 1 ELSE cc[x]], Tail(ns), seen \cup {h})
+  IN B(c, names, {})
 Put(f, k, v) == [x \in DOMAIN f \cup {k} |-> IF x = k THEN v ELSE f[x]]
 
 InitCapacity == 20
